@@ -23,6 +23,8 @@ func init() {
 			"R4 lruCache state is touched only under mu (write lock for LRU-mutating calls incl. Get); Clear/ClearAll advance the token on every path; Add inserts only after both staleness comparisons",
 			"R6 the key is final at lookup: after a generator consults the cache with an entry, nothing on the way to the insertion writes a field of that entry that its Key() hashes (lookup and insertion use one key)",
 			"R7 the deferred (Flush) clean-up of the dependency index consults the store for the key on every path before it removes an index entry (an entry re-added since the eviction keeps its index)",
+			"R8 every mutation of an endpoint shard is followed by the cache clear for that service on every path (the push-type decision is not a proxy for 'nothing observable changed': the shard is written in every case)",
+			"R9 Proxy.LastPushTime - the time stamp a connection's cache writes carry and lruCache.Add compares with the invalidation token - is only ever assigned PushRequest.Start: a clock reading taken after the snapshot pointer was captured would let a writer holding an older snapshot pass the stale-writer check",
 			"R5 invalidate before publish: dropCacheForRequest precedes SetPushContext; the Address-kind ClearAll precedes the hand-off to the push channel; XdsCacheImpl.Clear clears every typed cache",
 		},
 		NotDecided: "byte equality with a fresh generation; completeness of what a conditional hash contribution depends on; interleavings beyond lock/order structure; that the liveness re-validation of the index clean-up computes the right difference",
@@ -34,6 +36,8 @@ func init() {
 			{"C06-R5", "invalidate before publish", c06r5},
 			{"C06-R6", "the key is complete when the cache is consulted", c06r6},
 			{"C06-R7", "deferred index clean-up re-validates liveness", c06r7},
+			{"C06-R8", "the endpoint cache is cleared with every shard mutation (shared with C13-R3)", c13r3},
+			{"C06-R9", "a proxy's cache-write time stamp is the start time of a push request", c06r9},
 		},
 	})
 }
@@ -948,4 +952,33 @@ func writtenThrough(p *Prog, fn *ssa.Function, root ssa.Value, keys map[*types.V
 		}
 	})
 	return res
+}
+
+
+// C06-R9: provenance of the stale-writer time stamp.
+func c06r9(c *Ctx) {
+	p := c.P
+	lpt := p.Field(pkgModel, "Proxy", "LastPushTime")
+	start := p.Field(pkgModel, "PushRequest", "Start")
+	n := 0
+	for _, fn := range p.AllFuncs {
+		if strings.HasSuffix(p.Fset.Position(fn.Pos()).Filename, "_test.go") || strings.Contains(funcPkgPath(fn), "/test") {
+			continue
+		}
+		for _, st := range storesTo(fn, lpt) {
+			n++
+			var ls []ssa.Value
+			phiLeaves(st.Val, map[ssa.Value]bool{}, &ls)
+			okAll := true
+			for _, l := range ls {
+				if fieldOfLoad(l) != start {
+					okAll = false
+				}
+			}
+			c.Check("Proxy.LastPushTime is assigned a push request's Start: "+stableFnName(fn), st.Pos(), okAll,
+				"Proxy.LastPushTime receives a value other than PushRequest.Start ("+st.Val.String()+"): the responses a connection generates are stamped with it, and the cache accepts a write only if the stamp is not older than the last invalidation. A clock reading taken after the connection captured its snapshot (e.g. at the end of its initialisation) is newer than an invalidation that happened in between, so resources built from the older snapshot are cached and handed to every proxy sharing the key")
+		}
+	}
+	c.Check("assignments of Proxy.LastPushTime found", token.NoPos, n >= 1, "no store to Proxy.LastPushTime found")
+	c.Floor(2)
 }
